@@ -629,4 +629,5 @@ def reference(case):
     trace = [[cv(e['tag']), cv(e['i']), cv(e['wc']), cv(e['rc']), [cv(x) for x in e['watch']]]
              for e in ref.trace]
     return {'outcome': outcome, 'trace': trace, 'sleeps': ref.sleeps, 'errors': ref.errors, 'error_pos': ref.error_pos,
+            'final_counters': [cv(ref.ctx.get(k, MISSING)) for k in ('i', 'whileCounter', 'retryCounter')],
             'notes': sorted(ref.notes)}
